@@ -43,10 +43,11 @@ def gen_history(rng, n, length):
             ops.append(("pc", [gen_q(rng, n) for _ in range(int(rng.integers(0, 4)))]))
         elif x < 0.88:
             ops.append(("bs",))
-        elif x < 0.94:
+        elif x < 0.91:
             ops.append(("rbs",))
         else:
-            ops.append(("tr",))
+            # forward / reverse transmission-reflection product with its options (they change the result, not the queries)
+            ops.append((str(rng.choice(["tr", "rtr"])), bool(rng.random() < 0.6), str(rng.choice(["stress", "displacement"]))))
     return ops
 
 
@@ -60,6 +61,11 @@ def enc_op(op):
     if op[0] == "pc":
         return "pc=" + "+".join(enc_q(q) for q in op[1]) if op[1] else "pc"
     return op[0]
+
+
+def enc_full(op):
+    """for the replay record: the model functions with their options"""
+    return enc_op(op) + (f"(force_complex={op[1]},unit={op[2]})" if op[0] in ("tr", "rtr") and len(op) == 3 else "")
 
 
 def flagc(v):
@@ -160,13 +166,16 @@ def run_history(ctx, path, ops, cj):
             except RuntimeError:
                 pass
         else:
+            opt = dict(force_complex=op[1], unit=op[2]) if len(op) == 3 else {}
             fn = {"bs": lambda g_: model.beamspread_2d_for_path(g_), "rbs": lambda g_: model.reverse_beamspread_2d_for_path(g_),
-                  "tr": lambda g_: model.transmission_reflection_for_path(path, g_)}[op[0]]
+                  "tr": lambda g_: model.transmission_reflection_for_path(path, g_, **opt),
+                  "rtr": lambda g_: model.reverse_transmission_reflection_for_path(path, g_, **opt)}[op[0]]
             with np.errstate(all="ignore"):
                 st, val = call(lambda: fn(rg))
                 st0, val0 = call(lambda: fn(fresh()))
             if st != st0 or (st == "ok" and not same_value(val, val0)):
-                ctx.violate(f"{op[0]} on the cached object differs from a fresh uncached object", cj, {"kind": "transparency_model_function"})
+                ctx.violate(f"{op[0]}{opt or ''} on the cached object differs from a fresh uncached object"
+                            + (f" (dtype {arrays_of(val)[0].dtype} vs {arrays_of(val0)[0].dtype})" if st == st0 == "ok" and arrays_of(val) and arrays_of(val0) else ""), cj, {"kind": "transparency_model_function"})
             ans = None  # the individual answers are not observable; compare the state only
         keys = sorted(rg._cache.keys())
         finals = sorted(rg._final_keys)
@@ -205,7 +214,7 @@ def one_case(ctx, rng, length):
     inc = "".join(flagc(i.are_normals_on_inc_rays_side) for i in path.interfaces)
     out = "".join(flagc(i.are_normals_on_out_rays_side) for i in path.interfaces)
     line = f"rgcache {n} {inc} {out} 0 " + " ".join(enc_op(o) for o in ops)
-    cj = {"numinterfaces": n, "inc_flags": inc, "out_flags": out, "ops": [enc_op(o) for o in ops]}
+    cj = {"numinterfaces": n, "inc_flags": inc, "out_flags": out, "ops": [enc_full(o) for o in ops]}
     nv = len(ctx.violations)
     obs = run_history(ctx, path, ops, cj)
     if len(ctx.violations) > nv and len(ops) > 1:
@@ -218,7 +227,7 @@ def one_case(ctx, rng, length):
             return bool(pc.violations)
         small = shrink_ops(ops, fails)
         pc = ProbeCtx(ctx)
-        cjs = {"numinterfaces": n, "inc_flags": inc, "out_flags": out, "ops": [enc_op(o) for o in small], "shrunk_from": len(ops)}
+        cjs = {"numinterfaces": n, "inc_flags": inc, "out_flags": out, "ops": [enc_full(o) for o in small], "shrunk_from": len(ops)}
         run_history(pc, path, small, cjs)
         if pc.violations:
             v = pc.violations[0]
